@@ -28,7 +28,7 @@ BOUND = {
     "thorough": "all subsets of size <=3 of the full grid x 3 default languages; all subsets of size 4 of the core grid x 3 default languages",
 }
 # as-built additions to the bound (kept next to BOUND so that the evidence reports them)
-BOUND = {k: v + "; plus: " + 'both left-to-right column orders; language tags differing only in case (core grid, subsets <=2 / <=3); noAppErrorString cells; search() select; label-less choices; keyword-bearing element names; OSM tags with (un)translated labels' for k, v in BOUND.items()}
+BOUND = {k: v + "; plus: " + '13 other row kinds (hidden calculations, repeats, label-less containers, rank, range, ...) x cell subsets <=2 (thorough <=3) of 7 columns x 3 languages; two choice lists with every mix of translated / partly translated / label-less / media-only choices in either sheet order; both left-to-right column orders; language tags differing only in case (core grid, subsets <=2 / <=3); noAppErrorString cells; search() select; label-less choices; keyword-bearing element names; OSM tags with (un)translated labels' for k, v in BOUND.items()}
 DEFLANGS = [None, "en", "zz"]
 
 
@@ -49,6 +49,10 @@ def blocks(tier):
             yield ("case", k, first)
     yield ("napp",)
     yield ("osm",)
+    for rk in FREE_ROWS:
+        yield ("free-row", rk)
+    yield ("free-lists", 0)
+    yield ("free-lists", 1)
     for k in ((1, 2) if tier == "quick" else (1, 2, 3)):
         for first in range(core - k + 1):
             yield ("names", k, first)
@@ -69,6 +73,88 @@ CASE_LANGS = ["", "en", "EN"]
 # element names that contain the keywords the translation paths are built from
 KEYWORD_ROWS = [[("my_guidance_hint_q", "text"), ("g_label", "begin group"), ("hint", "select_one c")],
                 [("label", "text"), ("image_g", "begin group"), ("s_guidance_hint", "select_one c")]]
+
+
+# ---- forms outside the grid: other kinds of rows (hidden questions, repeats, label-less containers) and several choice lists
+FREE_ROWS = {
+    "calc-hidden": [{"type": "calculate", "name": "k", "calculation": "1 + 1"}],
+    "text-calc-hidden": [{"type": "text", "name": "k", "calculation": "1 + 1"}],
+    "trigger-hidden": [{"type": "text", "name": "k", "calculation": "now()", "trigger": "${inner}"}],
+    "repeat": [{"type": "begin repeat", "name": "k"}, {"type": "text", "name": "ri", "label": "RI"}, {"type": "end repeat"}],
+    "group": [{"type": "begin group", "name": "k"}, {"type": "text", "name": "gi", "label": "GI"}, {"type": "end group"}],
+    "group-fieldlist": [{"type": "begin group", "name": "k", "appearance": "field-list"}, {"type": "text", "name": "gi", "label": "GI"}, {"type": "end group"}],
+    "select_multiple": [{"type": "select_multiple c", "name": "k"}],
+    "rank": [{"type": "rank c", "name": "k"}],
+    "note": [{"type": "note", "name": "k"}],
+    "range": [{"type": "range", "name": "k"}],
+    "image": [{"type": "image", "name": "k"}],
+    "acknowledge": [{"type": "acknowledge", "name": "k"}],
+    "select-file": [{"type": "select_one_from_file f.csv", "name": "k"}],
+}
+FREE_COLS = ["label", "hint", "guidance_hint", "constraint_message", "required_message", "image", "audio"]
+FREE_LANGS = ["", "en", "fr"]
+LIST_STATES = ["tr", "en", "none", "media"]
+
+
+def free_header(c, l):
+    base = f"media::{c}" if c in ("image", "audio") else c
+    return base if not l else f"{base}::{l}"
+
+
+def gen_free_rows(rk, tier):
+    cs = [(c, l) for c in FREE_COLS for l in FREE_LANGS]
+    k = 2 if tier == "quick" else 3
+    for r in range(0, k + 1):
+        for combo in itertools.combinations(cs, r):
+            for ref in (False, True):
+                if ref and not any(c in ("label", "hint", "constraint_message", "required_message") for c, _ in combo):
+                    continue
+                for extra in (False, True):
+                    yield {"free": {"k": "row", "rk": rk, "cells": [list(x) for x in combo], "extra": extra}, "cells": [], "dl": None, "ref": ref}
+
+
+def gen_free_lists(order):
+    for cst in itertools.product(LIST_STATES, repeat=3):
+        for dst in itertools.product(("tr", "en"), repeat=2):
+            yield {"free": {"k": "lists", "c": list(cst), "d": list(dst), "order": order}, "cells": [], "dl": None, "ref": False}
+
+
+def build_free(case):
+    f = case["free"]
+    rows = [{"type": "text", "name": "inner", "label": "inner"}]
+    choices = [{"list_name": "c", "name": "x", "label": "X"}, {"list_name": "c", "name": "y", "label": "Y"}]
+    if f["k"] == "row":
+        body = [dict(r) for r in FREE_ROWS[f["rk"]]]
+        row = body[0]
+        for c, l in f["cells"]:
+            v = f"k.{c}.{l or '0'}" + (".png" if c == "image" else ".mp3" if c == "audio" else "")
+            if case["ref"] and c in ("label", "hint", "constraint_message", "required_message"):
+                v += " ${inner}"
+            row[free_header(c, l)] = v
+        if any(c == "constraint_message" for c, _ in f["cells"]):
+            row["constraint"] = ". != 'zz'"
+        if any(c == "required_message" for c, _ in f["cells"]):
+            row["required"] = "yes"
+        rows += body
+        if f["extra"]:
+            rows.append({"type": "text", "name": "t", "label::en": "T", "label::fr": "Tf"})
+        return {"survey": rows, "choices": choices}
+    lists = {}
+    for ln, states in (("c", f["c"]), ("d", f["d"])):
+        out = []
+        for i, stt in enumerate(states):
+            ch = {"list_name": ln, "name": f"{ln}{i}"}
+            if stt == "tr":
+                ch.update({"label::en": f"{ln}{i}.en", "label::fr": f"{ln}{i}.fr"})
+            elif stt == "en":
+                ch["label::en"] = f"{ln}{i}.en"
+            elif stt == "media":
+                ch["media::image::en"] = f"{ln}{i}.png"
+            out.append(ch)
+        lists[ln] = out
+    choices = lists["c"] + lists["d"] if f["order"] == 0 else lists["d"] + lists["c"]
+    rows += [{"type": "select_one c", "name": "sc", "label::en": "SC", "label::fr": "SCf"}, {"type": "select_multiple d", "name": "sd", "label::en": "SD", "label::fr": "SDf"}]
+    return {"survey": rows, "choices": choices}
 
 
 def contexts(case):
@@ -94,6 +180,12 @@ def expand(block, tier):
                 for extra in [None, *core]:
                     for dl in DEFLANGS[:2]:
                         yield {"cells": [list(extra)] if extra else [], "dl": dl, "ref": ref, "napp": list(ls), "rev": bool(len(ls) % 2)}
+        return
+    if block[0] == "free-row":
+        yield from gen_free_rows(block[1], tier)
+        return
+    if block[0] == "free-lists":
+        yield from gen_free_lists(block[1])
         return
     if block[0] == "osm":
         # an OSM question whose tags carry (un)translated labels, alone and next to a translated question
@@ -225,13 +317,17 @@ def build_osm(o):
 
 
 def check_one(case):
-    wb, kw = build_osm(case["osm"]) if case.get("osm") else build_case(case)
+    if case.get("free"):
+        wb, kw = build_free(case), {}
+    else:
+        wb, kw = build_osm(case["osm"]) if case.get("osm") else build_case(case)
     out = run_convert(wb, **kw)
     ntr = len(wb["survey"]) + len(wb.get("choices", ())) + len(case["cells"])
     if out.kind == "crash":
         return {"outcome": "crash", "nt": False, "viol": [], "tr": ntr}
     if out.kind == "reject":
-        return {"outcome": "reject", "nt": False, "viol": [], "tr": ntr, "unexp": True, "why": out.msg[:160]}
+        # (free rows: a visible question without any label is rightly refused)
+        return {"outcome": "reject", "nt": False, "viol": [], "tr": ntr, "unexp": not case.get("free"), "why": out.msg[:160]}
     obs = O.Obs(out.xform)
     pr, nlang, nrefs = invariant_problems(obs, out.xform, case["dl"])
     if case.get("osm"):
